@@ -49,7 +49,7 @@ impl Opts {
     pub fn new() -> Opts {
         let args = Args::parse();
 
-        let (optimizations, vulnerabilities, qa) = if args.toml.is_some() {
+        let (optimizations, vulnerabilities, qa, toml_path) = if args.toml.is_some() {
             let toml_path = args.toml.unwrap();
 
             let toml_str =
@@ -74,17 +74,22 @@ impl Opts {
                     .iter()
                     .map(|f| str_to_qa(f))
                     .collect::<Vec<QualityAssurance>>(),
+                Some(solstat_toml.path),
             )
         } else {
             (
                 optimizations::get_all_optimizations(),
                 vulnerabilities::get_all_vulnerabilities(),
                 qa::get_all_qa(),
+                None,
             )
         };
 
         let path = if args.path.is_some() {
             args.path.unwrap()
+        } else if toml_path.is_some() {
+            //the directory set in the configuration file
+            toml_path.unwrap()
         } else {
             match fs::read_dir("./contracts") {
                 Ok(_) => {}
